@@ -77,6 +77,8 @@ def verify_function(world, reg, c, prop, timeout_ms=20000, mutate=None, recheck=
     params = [a.arg for a in node.args.posonlyargs + node.args.args + node.args.kwonlyargs]
     if node.args.vararg:
       params.append(node.args.vararg.arg)
+    if node.args.kwarg and node.args.kwarg.arg not in c.types:
+      env[node.args.kwarg.arg] = VDict({})          # the verified instance passes no keyword arguments
     for p in params:
       ty = c.types.get(p)
       if ty is None:
